@@ -6,7 +6,7 @@ from analysis import (E, Src, awaits, expr_operand, expr_place, expr_local, fmt_
 from facts import callee_path, is_param_call
 from model import CHANNEL_FNS, SEND_FNS, RECV_FNS, short
 from rules_sched import (NODE_COUNT_FNS, TAKE, cond_guards, guard_eq_zero, is_const, sources_of_expr, interrupt_mapper,
-                         effective_sites, user_awaits, structure_roles)
+                         effective_sites, user_awaits, structure_roles, loop_region, holder_roles)
 
 WAKE_FNS = ("std::task::Waker::wake_by_ref", "std::task::Waker::wake")
 POLL_FN = ("futures::stream::poll_fn", "futures::future::poll_fn", "std::future::poll_fn")
@@ -56,9 +56,7 @@ def release_sites(ctx):
             if "mpsc::Sender" not in ty and "mpsc::bounded::Sender" not in ty:
                 continue
             # provenance of what the place held: other definitions of the same place
-            srcs = fl.sources_place(b, s_["pl"])
-            roles, other = m.roles_of_sources(srcs, half=0)
-            roles.discard(None)
+            roles = holder_roles(ctx, b, place=s_["pl"])
             if not roles:
                 continue
             kind, detail, params = classify_release_guard(ctx, b, bb, with_params=True)
@@ -122,8 +120,65 @@ def classify_value_as_guard(ctx, b, e, taken_true):
     return None
 
 
+def or_chain_guards(body, bb):
+    """`if a || b { bb }`: bb's straight-line region is entered from the taken
+    arms of two or more consecutive two-way switches.  Returns
+    [(switch_bb, taken_values)] (one per disjunct) or []."""
+    pred = body.normal_pred()
+    h = bb
+    seen = set()
+    while len(pred[h]) == 1 and h not in seen:
+        seen.add(h)
+        p0 = pred[h][0]
+        if body.blocks[p0]["term"]["k"] == "switch" or len(body.succs(p0)) != 1:
+            break
+        h = p0
+    arms = []
+    for p0 in pred[h]:
+        q, via = p0, h
+        hops = 0
+        while body.blocks[q]["term"]["k"] == "goto" and len(pred[q]) == 1 and hops < 4:
+            via, q = q, pred[q][0]
+            hops += 1
+        t = body.blocks[q]["term"]
+        if t["k"] != "switch":
+            return []
+        vals = frozenset([v for v, tb in t["targets"] if tb == via] + (["otherwise"] if t["otherwise"] == via else []))
+        if not vals or len(vals) == len(t["targets"]) + 1:
+            return []
+        arms.append((q, vals))
+    if len(arms) < 2:
+        return []
+    arms.sort(key=lambda a: len(body.dominators().get(a[0], ())))
+    for (s1, _), (s2, _) in zip(arms, arms[1:]):
+        if not body.dominates(s1, s2) or s2 not in body.reachable_fwd(s1, avoid={h}):
+            return []
+    return arms
+
+
 def classify_release_guard(ctx, b, bb, with_params=False):
     """EMPTY / FINISHED / INTERRUPTED / FAILED / UNGUARDED / OTHER (+ PARAM guards for lifting)"""
+    r = _classify_release_guard(ctx, b, bb)
+    if r[0] == "UNGUARDED" and not r[2]:
+        # short-circuit disjunction: the release serves every disjunct's exit kind
+        arms = or_chain_guards(b, bb)
+        ks = []
+        for sb, vals in arms:
+            e = strip_refs(switch_expr(b, sb))
+            taken_true = "otherwise" in vals and "0" not in vals
+            taken_false = "0" in vals and "otherwise" not in vals
+            c = classify_value_as_guard(ctx, b, e, taken_true) if (taken_true or taken_false) else None
+            ks.append(c)
+        if arms and any(c is not None and c[0] in ("EMPTY", "FINISHED", "INTERRUPTED") for c in ks):
+            # an unclassified disjunct only adds releases; the obligations of the classified ones are still met
+            alt = tuple(c[0] if c is not None and c[0] in ("EMPTY", "FINISHED", "INTERRUPTED") else "?" for c in ks)
+            r = ("OR:" + "+".join(alt), " || ".join(c[1] if c is not None else "?" for c in ks), [])
+    if with_params:
+        return r
+    return r[0], r[1]
+
+
+def _classify_release_guard(ctx, b, bb):
     m, fl = ctx.model, ctx.model.flow
     kinds = []
     params = []
@@ -154,9 +209,7 @@ def classify_release_guard(ctx, b, bb, with_params=False):
                 res = (k, d)
     if res is None:
         res = kinds[0] if kinds else ("UNGUARDED", "")
-    if with_params:
-        return res[0], res[1], params
-    return res
+    return res[0], res[1], params
 
 
 def lift_release_sites(ctx, site, depth=0):
@@ -203,6 +256,11 @@ def interrupted_release_needs_no_id(ctx, site):
             if e.kind != "discr":
                 continue
             srcs = sources_of_expr(ctx, eb, strip_refs(e[1]))
+            lr = loop_region(ctx, eb, ebb)
+            if lr is not None and lr.get("switch_bb") == sb:
+                continue      # the `while let Some(item) = ready.next().await` test of the loop itself
+            if (eb.blocks[sb]["term"].get("sp") or {}).get("desugar") == "Await":
+                continue      # Ready/Pending test inside an await expansion
             if srcs and m.is_ready_item(srcs):
                 which = "no id was dequeued" if "1" not in vals else "an id was dequeued"
                 return "the interrupted poll carried %s (guard on the dequeued Option at %s)" % (
@@ -277,7 +335,7 @@ def T1(ctx, rule="T1", kinds=None):
         if kinds is not None:
             need = [k for k in need if k in kinds]
         for k in need:
-            cands = [s for s in mine if s["kind"] == k]
+            cands = [s for s in mine if s["kind"] == k or (s["kind"] or "").startswith("OR:") and k in s["kind"][3:].split("+")]
             if k == "EMPTY":
                 cands = [s for s in cands if is_pre_scheduler_body(s["body"])]
             n += 1
@@ -319,7 +377,7 @@ def T1(ctx, rule="T1", kinds=None):
             if kinds is not None:
                 continue
             n += 1
-            c = [s for s in mine if s["kind"] == k]
+            c = [s for s in mine if s["kind"] == k or (s["kind"] or "").startswith("OR:") and k in s["kind"][3:].split("+")]
             if not c and k == "EMPTY" and empty_by_construction(ctx, e, "READY")[0]:
                 ctx.ok(rule, "READY-%s|%s" % (k, e["name"]), where, "EMPTY: " + empty_by_construction(ctx, e, "READY")[1])
                 continue
@@ -700,9 +758,27 @@ def T3(ctx, rule="T3", families=None, want_stream=None):
                    "at every return each polled receiver %s is Pending (waker registered), closed, or its poll result is the returned value (%s)" % (
                        sorted(rxs), how))
     ctx.counts[rule] = n
-    floor = 1 if want_stream else (4 if want_stream is False else 5)
-    if n < floor:
-        ctx.unverifiable(rule, "floor", "-", "expected >= %d hand-written poll functions, found %d" % (floor, n))
+    # inventory: every receive on a protocol channel is in a checked poll function or is an awaited `recv()`
+    checked = {cb.id for cb, how in poll_closures(ctx)}
+    for s_ in m.recv_sites():
+        b = s_["body"]
+        in_stream = b.id in stream_reach and b.id not in other_reach
+        if (want_stream is True and not in_stream) or (want_stream is False and in_stream):
+            continue
+        if b.id not in stream_reach and b.id not in other_reach:
+            continue
+        for r in s_["roles"]:
+            ctx.cover(rule + "." + str(r), b.id)
+        if b.id in checked:
+            continue
+        awaited = b.kind == "coroutine" and s_["fn"].endswith("::recv") and any(
+            a.operand.get("pl", {}).get("l") == s_["t"]["dest"]["l"] for a in awaits(b))
+        ctx.check(awaited, rule, "recv-site|%s" % short(b.id), m.where(b, s_["bb"]),
+                  "receive through an awaited `recv()` future (registers the task's waker itself)",
+                  "a protocol channel is received from by %s outside a poll function with a task context and not through an awaited recv(): wake-up discipline not decidable" % s_["fn"])
+    fams = ("stream",) if want_stream else (("fold", "for_each", "try_fold", "try_for_each") if want_stream is False else None)
+    for role in ("READY", "DONE"):
+        ctx.entry_floor(rule, rule + "." + role, fams, "receive site of the %s channel" % role)
 
 
 # ---------------------------------------------------------------------------
@@ -786,7 +862,7 @@ def U1(ctx, rule="U1"):
                 de = switch_expr(cb, sb)
                 if de.kind == "discr":
                     srcs = sources_of_expr(ctx, cb, strip_refs(de[1]))
-                    roles, _ = m.roles_of_sources(srcs, half=0)
+                    roles = holder_roles(ctx, cb, strip_refs(de[1]))
                     if "DONE" in roles and vals == frozenset(["1"]):
                         g2 = True
         ctx.check(g2, rule, "end-guard|%s" % key, m.where(cb),
